@@ -146,7 +146,7 @@ def execute_resume(cfg, ctx, chk):
         last = len(vars_) - 1
         observed = []          # per step: what the implementation reports
         exc = None
-        with seams.patched((R, "time", clock)):
+        with clock.installed(R):
             runner = RM.ScriptedRunner(pd, unpacked, steps[0][1], keep, answer)
             runner.set_results_filename(os.path.join(fs.root, "res"))
             try:
@@ -257,7 +257,7 @@ def execute(cfg, ctx, chk, lookups=True):
     # grid / limit used by the SECOND simulate() of the "twice_*" modes
     pd2, rep_max2 = second_run_setup(pd, unpacked, rep_max, mode)
     try:
-        with seams.patched((R, "time", clock)):
+        with clock.installed(R):
             runner = RM.ScriptedRunner(pd, unpacked, rep_max, keep, answer)
             if single is not None:
                 fs = crashfs.CrashFS()
